@@ -68,7 +68,7 @@ PROPS = {
                      "model and compares the drain status, write-buffer size, lock and every thread's position after each; at the end: all threads finished => status idle, buffer empty, lock free; "
                      "drain engine: (a) 60 scripted protocol windows per unit of scale, reached by parking goroutines at hook points: V1 the maintainer parked before its final status "
                      "transition, a writer pushes, loads 'processing-to-idle' and is parked before acting on it, the maintainer finishes (idle), the writer resumes and must start over; V2 the same with "
-                     "the writer's transition winning; V3 a writer holding a stale 'idle' while another writer runs a whole cycle; (b) 400 rounds per unit of scale with the DEFAULT executor: 1-6 writers (Set/SetIfAbsent/Invalidate bursts of 1-12 or 100-500 writes) and 0-2 readers on a cache of "
+                     "the writer's transition winning; V3 a writer holding a stale 'idle' while another writer runs a whole cycle; V4 writes made inside a Hottest/Coldest iteration; V5 the executor task waiting for the lock held by an explicit CleanUp; V6 the caller-runs fallback (write buffer of that cache shrunk to 4, eviction lock held from outside, a fifth writer exhausts its 100 retries, is parked inside its own maintenance run while one more write is recorded); (b) 400 rounds per unit of scale with the DEFAULT executor: 1-6 writers (Set/SetIfAbsent/Invalidate bursts of 1-12 or 100-500 writes) and 0-2 readers on a cache of "
                      "maximum 2-21; hook points inside the protocol inject random yields/sleeps (4 perturbation modes); after the calls return NO further cache call is made: only atomic loads of the drain "
                      "status and write-buffer size until quiescent (3 s limit), then status idle, buffer empty, bound restored, every write linked in the policy, OnDeletion count = OnAtomicDeletion count; "
                      "distinct_nontrivial = distinct (writers, readers, perturbation, burst) combinations",
